@@ -2,9 +2,20 @@
 //! mock backends.
 //!
 //! Families (same line grammar as `lean/TarpcModel/Driver/C20.lean`):
-//! * `c20rr`    `n=<backends>`             ops `call <req>` | `poll <id>` | `drop <id>`
+//! * `c20rr`    `n=<backends>`             ops `call <req>` | `poll <id>` | `drop <id>` |
+//!                                              `set-result <backend> ok|shutdown|deadline|server`
 //! * `c20hash`  `n=<backends> seed=<u64>`  same ops
-//! * `c20retry` `pk=<policy kind> max=<m>` ops `result ok <v>` | `result err <k>` | `decide <0|1>` | `call <req>`
+//! * `c20retry` `pk=<policy kind> max=<m>` ops `result ok|err|send <v> [<delay ns>]` | `decide <0|1>` |
+//!                                              `call <req> [d=<ns> trace=<trace id>:<span id>:<S|U>]`
+//!
+//! `set-result` switches what one mock backend answers from then on (`Ok(req)`, `RpcError::Shutdown`,
+//! `DeadlineExceeded`, `Server`); every dispatch is followed by `obs answered <id> <kind>`, what the caller
+//! got.  Neither load balancer may let a backend's earlier answers influence where a request goes.
+//!
+//! `c20retry` runs under a paused tokio clock (tarpc's `verif_hooks::now()`): a scripted backend answer
+//! may take `<delay ns>` of virtual time, the caller's context has deadline `now + d` and the given trace
+//! context, and the mock backend records the `context::Context` of every call
+//! (`obs attempt <i> at=<ns> deadline=<ns> trace=…`, ns after the script's base instant).
 //!
 //! A `call` only *creates* the call future (an `async fn` body does not run before its first poll);
 //! `poll` is the first poll of one of the outstanding futures, chosen by the PRNG, so the order in
@@ -14,7 +25,7 @@ use crate::rng::Rng;
 use crate::Out;
 use futures::task::noop_waker_ref;
 use std::{
-    cell::RefCell,
+    cell::{Cell, RefCell},
     collections::{BTreeMap, VecDeque},
     future::Future,
     hash::{BuildHasher, Hasher},
@@ -23,6 +34,7 @@ use std::{
     rc::Rc,
     sync::Arc,
     task::{Context, Poll},
+    time::{Duration, Instant},
 };
 use tarpc::{
     client::{
@@ -33,26 +45,35 @@ use tarpc::{
         },
         RpcError,
     },
-    context, ServerError,
+    context, trace, ServerError,
 };
 
 // ---------------------------------------------------------------------------------------------
 // Load balancing
 // ---------------------------------------------------------------------------------------------
 
-/// Mock backend: records `(its own index, the request it received)` and answers at once.
+/// Mock backend: records `(its own index, the request it received)` and answers at once with whatever
+/// `results[index]` currently says (0 `Ok(req)`, 1 `Shutdown`, 2 `DeadlineExceeded`, 3 `Server`).
 #[derive(Clone)]
 struct LbMock {
     index: usize,
     log: Rc<RefCell<Vec<(usize, u64)>>>,
+    results: Rc<RefCell<Vec<u8>>>,
 }
+
+const RESULT_KINDS: [&str; 4] = ["ok", "shutdown", "deadline", "server"];
 
 impl Stub for LbMock {
     type Req = u64;
     type Resp = u64;
     async fn call(&self, _: context::Context, req: u64) -> Result<u64, RpcError> {
         self.log.borrow_mut().push((self.index, req));
-        Ok(req)
+        match self.results.borrow()[self.index] {
+            0 => Ok(req),
+            1 => Err(RpcError::Shutdown),
+            2 => Err(RpcError::DeadlineExceeded),
+            _ => Err(RpcError::Server(ServerError::new(std::io::ErrorKind::Other, "scripted".into()))),
+        }
     }
 }
 
@@ -108,6 +129,7 @@ pub enum LbOp {
     Call(u64),
     Poll(u64),
     Drop(u64),
+    SetResult(u64, u8),
 }
 
 impl LbOp {
@@ -116,6 +138,9 @@ impl LbOp {
             ["call", r] => Some(LbOp::Call(r.parse().ok()?)),
             ["poll", i] => Some(LbOp::Poll(i.parse().ok()?)),
             ["drop", i] => Some(LbOp::Drop(i.parse().ok()?)),
+            ["set-result", b, k] => {
+                Some(LbOp::SetResult(b.parse().ok()?, RESULT_KINDS.iter().position(|x| x == k)? as u8))
+            }
             _ => None,
         }
     }
@@ -124,6 +149,7 @@ impl LbOp {
             LbOp::Call(r) => format!("call {r}"),
             LbOp::Poll(i) => format!("poll {i}"),
             LbOp::Drop(i) => format!("drop {i}"),
+            LbOp::SetResult(b, k) => format!("set-result {b} {}", RESULT_KINDS[*k as usize]),
         }
     }
 }
@@ -135,6 +161,7 @@ fn drive_lb<S>(
     out: &mut Out,
     stubs: &[S; 2],
     log: &Rc<RefCell<Vec<(usize, u64)>>>,
+    results: &Rc<RefCell<Vec<u8>>>,
     kind: Kind,
     rng: &mut Rng,
     script: Option<&[LbOp]>,
@@ -161,7 +188,7 @@ fn drive_lb<S>(
                 }
                 let ids: Vec<u64> = live.keys().copied().collect();
                 let some = !ids.is_empty();
-                match rng.weighted(&[42, if some { 44 } else { 0 }, if some { 8 } else { 0 }, 3]) {
+                match rng.weighted(&[42, if some { 44 } else { 0 }, if some { 8 } else { 0 }, 3, 9]) {
                     0 => {
                         let req = match kind {
                             // equal requests must recur for the stability half of the property
@@ -172,6 +199,13 @@ fn drive_lb<S>(
                     }
                     1 => LbOp::Poll(*rng.pick(&ids)),
                     2 => LbOp::Drop(*rng.pick(&ids)),
+                    // a backend starts failing (mostly the way a dead channel does) or recovers;
+                    // now and then a backend that does not exist
+                    4 => {
+                        let n = results.borrow().len() as u64;
+                        let b = if rng.chance(1, 12) { n } else { rng.below(n) };
+                        LbOp::SetResult(b, [1u8, 1, 1, 0, 0, 2, 3][rng.below(7) as usize])
+                    }
                     // an id that may be dead or not yet created
                     _ => {
                         if rng.chance(1, 2) {
@@ -215,8 +249,13 @@ fn drive_lb<S>(
                             // the mock echoes the request; anything else means the answer was altered
                             if recs.len() != 1 || recs[0].1 != resp {
                                 out.line(&format!("obs wrong-response {id} {resp}"));
+                            } else {
+                                out.line(&format!("obs answered {id} ok"));
                             }
                         }
+                        Ok(Poll::Ready(Err(RpcError::Shutdown))) => out.line(&format!("obs answered {id} shutdown")),
+                        Ok(Poll::Ready(Err(RpcError::DeadlineExceeded))) => out.line(&format!("obs answered {id} deadline")),
+                        Ok(Poll::Ready(Err(RpcError::Server(_)))) => out.line(&format!("obs answered {id} server")),
                         Ok(Poll::Ready(Err(e))) => out.line(&format!("obs wrong-error {id} {e:?}")),
                         Ok(Poll::Pending) => out.line(&format!("obs wrong-pending {id}")),
                     }
@@ -224,6 +263,16 @@ fn drive_lb<S>(
                     drop(fut);
                 }
             },
+            LbOp::SetResult(b, k) => {
+                let mut rs = results.borrow_mut();
+                match rs.get_mut(b as usize) {
+                    None => out.line("obs noop"),
+                    Some(slot) => {
+                        *slot = k;
+                        out.line(&format!("obs result-set {b} {}", RESULT_KINDS[k as usize]));
+                    }
+                }
+            }
         }
     }
 }
@@ -243,7 +292,9 @@ pub fn run_lb_script(
         Kind::Hash => out.line(&format!("script {idx} {} n={n} seed={hseed}", kind.family())),
     }
     let log = Rc::new(RefCell::new(Vec::new()));
-    let mocks: Vec<LbMock> = (0..n).map(|index| LbMock { index, log: log.clone() }).collect();
+    let results = Rc::new(RefCell::new(vec![0u8; n]));
+    let mocks: Vec<LbMock> =
+        (0..n).map(|index| LbMock { index, log: log.clone(), results: results.clone() }).collect();
     // n = 0 is outside the property; the first poll panics (remainder by zero). Keep stderr quiet.
     let prev_hook = if n == 0 {
         let h = std::panic::take_hook();
@@ -256,12 +307,12 @@ pub fn run_lb_script(
         Kind::Rr => {
             let a = RoundRobin::new(mocks);
             let stubs = [a.clone(), a];
-            drive_lb(out, &stubs, &log, kind, rng, script, len);
+            drive_lb(out, &stubs, &log, &results, kind, rng, script, len);
         }
         Kind::Hash => {
             let a = ConsistentHash::with_hasher(mocks, VerifBuildHasher(hseed)).expect("len fits u64");
             let stubs = [a.clone(), a];
-            drive_lb(out, &stubs, &log, kind, rng, script, len);
+            drive_lb(out, &stubs, &log, &results, kind, rng, script, len);
         }
     }
     if let Some(h) = prev_hook {
@@ -273,12 +324,25 @@ pub fn run_lb_script(
 // Retry
 // ---------------------------------------------------------------------------------------------
 
-/// Scripted backend answer: `Ok(v)` or the `k`-th error value.
+/// Scripted backend answer: `Ok(v)`, the `k`-th error value, or `RpcError::Send(<boxed error k>)`.
 #[derive(Clone, Copy, Debug, PartialEq, Eq)]
 pub enum Res {
     Ok(u64),
     Err(u64),
+    Send(u64),
 }
+
+/// The boxed error inside a scripted `RpcError::Send`.
+#[derive(Debug)]
+struct SendFailure(u64);
+
+impl std::fmt::Display for SendFailure {
+    fn fmt(&self, f: &mut std::fmt::Formatter<'_>) -> std::fmt::Result {
+        write!(f, "s{}", self.0)
+    }
+}
+
+impl std::error::Error for SendFailure {}
 
 impl Res {
     fn into_result(self) -> Result<u64, RpcError> {
@@ -287,12 +351,14 @@ impl Res {
             Res::Err(0) => Err(RpcError::Shutdown),
             Res::Err(1) => Err(RpcError::DeadlineExceeded),
             Res::Err(k) => Err(RpcError::Server(ServerError::new(std::io::ErrorKind::Other, format!("e{k}")))),
+            Res::Send(k) => Err(RpcError::Send(Box::new(SendFailure(k)))),
         }
     }
     fn render(self) -> String {
         match self {
             Res::Ok(v) => format!("ok {v}"),
             Res::Err(k) => format!("err {k}"),
+            Res::Send(k) => format!("send {k}"),
         }
     }
 }
@@ -307,55 +373,154 @@ fn render_result(r: &Result<u64, RpcError>) -> String {
             Some(k) if e.kind == std::io::ErrorKind::Other => format!("err {k}"),
             _ => format!("err ?{e:?}"),
         },
+        Err(RpcError::Send(e)) => match e.to_string().strip_prefix('s').and_then(|k| k.parse::<u64>().ok()) {
+            Some(k) => format!("send {k}"),
+            None => format!("send ?{e:?}"),
+        },
         Err(e) => format!("err ?{e:?}"),
     }
 }
 
-/// Mock backend for `Retry`: records the request it is given, then answers with the next scripted
-/// result, or never if the script is exhausted.
+/// `<ns after base>`, or `-<ns before base>`.
+fn rel_ns(t: Instant, base: Instant) -> String {
+    match t.checked_duration_since(base) {
+        Some(d) => d.as_nanos().to_string(),
+        None => format!("-{}", base.duration_since(t).as_nanos()),
+    }
+}
+
+fn render_ctx(ctx: &context::Context, base: Instant) -> String {
+    let tc = &ctx.trace_context;
+    format!(
+        "deadline={} trace={}:{}:{}",
+        rel_ns(ctx.deadline, base),
+        u128::from(tc.trace_id),
+        u64::from(tc.span_id),
+        if tc.sampling_decision == trace::SamplingDecision::Sampled { "S" } else { "U" }
+    )
+}
+
+/// Mock backend for `Retry`: records the request and the context it is given (numbering its calls
+/// within one `Retry::call` 1, 2, 3, …), lets the scripted amount of virtual time pass, then answers
+/// with the next scripted result — or never, if the script is exhausted.
 struct RtMock {
-    results: Rc<RefCell<VecDeque<Res>>>,
+    results: Rc<RefCell<VecDeque<(Res, u64)>>>,
     events: Rc<RefCell<Vec<String>>>,
+    calls: Rc<Cell<u64>>,
+    stuck: Rc<Cell<bool>>,
+    base: Instant,
 }
 
 impl Stub for RtMock {
     type Req = Arc<u64>;
     type Resp = u64;
-    async fn call(&self, _: context::Context, req: Arc<u64>) -> Result<u64, RpcError> {
+    async fn call(&self, ctx: context::Context, req: Arc<u64>) -> Result<u64, RpcError> {
+        self.calls.set(self.calls.get() + 1);
         self.events.borrow_mut().push(format!("backend {}", *req));
+        self.events.borrow_mut().push(format!(
+            "attempt {} at={} {}",
+            self.calls.get(),
+            rel_ns(tarpc::verif_hooks::now(), self.base),
+            render_ctx(&ctx, self.base)
+        ));
         let next = self.results.borrow_mut().pop_front();
         match next {
-            Some(r) => r.into_result(),
-            None => futures::future::pending().await,
+            Some((r, delay)) => {
+                if delay > 0 {
+                    // moves the paused clock (the one tarpc reads) and yields once
+                    tokio::time::advance(Duration::from_nanos(delay)).await;
+                }
+                r.into_result()
+            }
+            None => {
+                self.stuck.set(true);
+                futures::future::pending().await
+            }
         }
     }
 }
 
 #[derive(Clone, Debug)]
 pub enum RtOp {
-    Result(Res),
+    Result(Res, u64),
     Decide(bool),
-    Call(u64),
+    Call { req: u64, d: u64, trace_id: u128, span_id: u64, sampled: bool },
 }
 
 impl RtOp {
     pub fn parse(toks: &[&str]) -> Option<RtOp> {
+        let res = |t: &str, v: &str| -> Option<Res> {
+            match t {
+                "ok" => Some(Res::Ok(v.parse().ok()?)),
+                "err" => Some(Res::Err(v.parse().ok()?)),
+                "send" => Some(Res::Send(v.parse().ok()?)),
+                _ => None,
+            }
+        };
         match toks {
-            ["result", "ok", v] => Some(RtOp::Result(Res::Ok(v.parse().ok()?))),
-            ["result", "err", k] => Some(RtOp::Result(Res::Err(k.parse().ok()?))),
+            ["result", t, v] => Some(RtOp::Result(res(t, v)?, 0)),
+            ["result", t, v, d] => Some(RtOp::Result(res(t, v)?, d.parse().ok()?)),
             ["decide", "0"] => Some(RtOp::Decide(false)),
             ["decide", "1"] => Some(RtOp::Decide(true)),
-            ["call", r] => Some(RtOp::Call(r.parse().ok()?)),
+            ["call", r] => {
+                Some(RtOp::Call { req: r.parse().ok()?, d: 10_000_000_000, trace_id: 0, span_id: 0, sampled: false })
+            }
+            ["call", r, d, tr] => {
+                let d = d.strip_prefix("d=")?.parse().ok()?;
+                let parts: Vec<&str> = tr.strip_prefix("trace=")?.split(':').collect();
+                let sampled = match parts.get(2) {
+                    Some(&"S") if parts.len() == 3 => true,
+                    Some(&"U") if parts.len() == 3 => false,
+                    _ => return None,
+                };
+                Some(RtOp::Call {
+                    req: r.parse().ok()?,
+                    d,
+                    trace_id: parts[0].parse().ok()?,
+                    span_id: parts[1].parse().ok()?,
+                    sampled,
+                })
+            }
             _ => None,
         }
     }
     pub fn render(&self) -> String {
         match self {
-            RtOp::Result(r) => format!("result {}", r.render()),
+            RtOp::Result(r, d) => format!("result {} {d}", r.render()),
             RtOp::Decide(b) => format!("decide {}", *b as u8),
-            RtOp::Call(r) => format!("call {r}"),
+            RtOp::Call { req, d, trace_id, span_id, sampled } => {
+                format!("call {req} d={d} trace={trace_id}:{span_id}:{}", if *sampled { "S" } else { "U" })
+            }
         }
     }
+}
+
+fn random_delay(rng: &mut Rng) -> u64 {
+    match rng.below(8) {
+        0..=2 => 0,
+        3 => 1,
+        4 => *rng.pick(&[999u64, 1_000_000, 150_000_000, 1_000_000_000]),
+        5 => rng.below(1_000_000),
+        _ => rng.below(3_000_000_000),
+    }
+}
+
+fn random_call(rng: &mut Rng) -> RtOp {
+    let d = match rng.below(6) {
+        0 => 0,
+        1 => 1 + rng.below(1000),
+        2 => 10_000_000_000,
+        3 => 30 * 86_400 * 1_000_000_000,
+        _ => rng.below(5_000_000_000),
+    };
+    let trace_id = match rng.below(4) {
+        0 => 0,
+        1 => u128::MAX,
+        2 => rng.below(100) as u128,
+        _ => ((rng.next() as u128) << 64) | rng.next() as u128,
+    };
+    let span_id = if rng.chance(1, 4) { *rng.pick(&[0, 1, u64::MAX]) } else { rng.next() };
+    RtOp::Call { req: rng.below(20), d, trace_id, span_id, sampled: rng.chance(1, 2) }
 }
 
 pub fn run_retry_script(
@@ -368,10 +533,14 @@ pub fn run_retry_script(
     len: usize,
 ) {
     out.line(&format!("script {idx} c20retry pk={pk} max={max}"));
+    let base = tarpc::verif_hooks::now();
     let results = Rc::new(RefCell::new(VecDeque::new()));
     let events = Rc::new(RefCell::new(Vec::<String>::new()));
     let table = Rc::new(RefCell::new(Vec::<bool>::new()));
-    let mock = RtMock { results: results.clone(), events: events.clone() };
+    let calls = Rc::new(Cell::new(0u64));
+    let stuck = Rc::new(Cell::new(false));
+    let mock =
+        RtMock { results: results.clone(), events: events.clone(), calls: calls.clone(), stuck: stuck.clone(), base };
     // The policy under test is a function of (result, attempt): kind 0 reads a decision table indexed
     // by the attempt number (declines beyond it), any other kind retries errors while attempt < max.
     // It records every consultation.
@@ -404,31 +573,73 @@ pub fn run_retry_script(
                     break;
                 }
                 match rng.weighted(&[58, if pk == 0 { 14 } else { 0 }, 20]) {
-                    0 => RtOp::Result(if rng.chance(3, 5) { Res::Err(rng.below(5)) } else { Res::Ok(rng.below(10)) }),
+                    0 => {
+                        let r = match rng.below(20) {
+                            0..=6 => Res::Ok(rng.below(10)),
+                            7..=14 => Res::Err(rng.below(5)),
+                            _ => Res::Send(rng.below(3)),
+                        };
+                        RtOp::Result(r, random_delay(rng))
+                    }
                     1 => RtOp::Decide(rng.chance(2, 3)),
-                    _ => RtOp::Call(rng.below(20)),
+                    _ => random_call(rng),
                 }
             }
         };
         i += 1;
         out.line(&format!("op {}", op.render()));
         match op {
-            RtOp::Result(r) => results.borrow_mut().push_back(r),
+            RtOp::Result(r, d) => results.borrow_mut().push_back((r, d)),
             RtOp::Decide(b) => table.borrow_mut().push(b),
-            RtOp::Call(req) => {
-                out.line(&format!("obs start {req}"));
-                let mut fut = Box::pin(retry.call(context::current(), req));
-                let r = fut.as_mut().poll(&mut cx);
+            RtOp::Call { req, d, trace_id, span_id, sampled } => {
+                let now = tarpc::verif_hooks::now();
+                let mut ctx = context::current();
+                ctx.deadline = now + Duration::from_nanos(d);
+                ctx.trace_context.trace_id = trace::TraceId::from(trace_id);
+                ctx.trace_context.span_id = trace::SpanId::from(span_id);
+                ctx.trace_context.sampling_decision =
+                    if sampled { trace::SamplingDecision::Sampled } else { trace::SamplingDecision::Unsampled };
+                out.line(&format!("obs start {req} at={} {}", rel_ns(now, base), render_ctx(&ctx, base)));
+                calls.set(0);
+                stuck.set(false);
+                let mut fut = Box::pin(retry.call(ctx, req));
+                // the mock answers at once, after moving the clock (one extra poll), or never
+                let mut polls = 0u32;
+                let r = loop {
+                    match fut.as_mut().poll(&mut cx) {
+                        Poll::Ready(res) => break Some(res),
+                        Poll::Pending if stuck.get() => break None,
+                        Poll::Pending => {
+                            polls += 1;
+                            if polls > 100_000 {
+                                events.borrow_mut().push("wrong-pending".into());
+                                break None;
+                            }
+                        }
+                    }
+                };
                 for e in events.borrow_mut().drain(..) {
                     out.line(&format!("obs {e}"));
                 }
                 match r {
-                    Poll::Ready(res) => out.line(&format!("obs ret {}", render_result(&res))),
-                    Poll::Pending => out.line("obs stuck"),
+                    Some(res) => out.line(&format!("obs ret {}", render_result(&res))),
+                    None => out.line("obs stuck"),
                 }
             }
         }
     }
+}
+
+/// tarpc (feature `verif-hooks`) reads tokio's clock: everything runs inside a paused current-thread
+/// runtime, so that time only moves when a scripted backend answer says so.
+fn in_runtime(f: impl FnOnce()) {
+    let rt = tokio::runtime::Builder::new_current_thread()
+        .enable_time()
+        .start_paused(true)
+        .build()
+        .expect("runtime");
+    let _guard = rt.enter();
+    f();
 }
 
 // ---------------------------------------------------------------------------------------------
@@ -449,7 +660,7 @@ pub fn generate(out: &mut Out, family: &str, seed: u64, scripts: u64, len: usize
             _ => {
                 let pk = rng.below(2);
                 let max = 1 + rng.below(6);
-                run_retry_script(out, idx, pk, max, &mut rng, None, len);
+                in_runtime(|| run_retry_script(out, idx, pk, max, &mut rng, None, len));
             }
         }
     }
@@ -470,7 +681,7 @@ pub fn replay(out: &mut Out, family: &str, scripts: &[(String, Vec<String>)]) {
             }
             _ => {
                 let ops: Vec<RtOp> = toks.iter().filter_map(|t| RtOp::parse(t)).collect();
-                run_retry_script(out, i as u64, num(h, "pk", 0), num(h, "max", 0), &mut rng, Some(&ops), 0);
+                in_runtime(|| run_retry_script(out, i as u64, num(h, "pk", 0), num(h, "max", 0), &mut rng, Some(&ops), 0));
             }
         }
     }
